@@ -525,6 +525,39 @@ def _norm_fact(k):
     return _fact_cache[k]
 
 
+def expand_flags(test, fn):
+    """`test` with every bare Name that is a boolean temporary of `fn` (assigned exactly once, nowhere else stored) replaced by the expression it was assigned -
+    `is_match = element["op"] == "match"` ... `if is_match:` reads as `if element["op"] == "match":`.  Returns a fresh expression (the tree is not modified)."""
+    single = {}
+    counts = {}
+    for n in ast.walk(fn):
+        tg = []
+        if isinstance(n, ast.Assign):
+            tg = n.targets
+        elif isinstance(n, (ast.AugAssign, ast.AnnAssign, ast.For, ast.comprehension)):
+            tg = [n.target]
+        elif isinstance(n, ast.NamedExpr):
+            tg = [n.target]
+        for t in tg:
+            for x in ast.walk(t):
+                if isinstance(x, ast.Name):
+                    counts[x.id] = counts.get(x.id, 0) + 1
+                    if isinstance(n, ast.Assign) and len(n.targets) == 1 and x is n.targets[0]:
+                        single[x.id] = n.value
+    params = {a.arg for a in fn.args.args + fn.args.kwonlyargs + fn.args.posonlyargs} if hasattr(fn, "args") else set()
+
+    def go(e, depth=0):
+        if isinstance(e, ast.Name) and counts.get(e.id) == 1 and e.id in single and e.id not in params and depth < 4 \
+                and isinstance(single[e.id], (ast.Compare, ast.BoolOp, ast.UnaryOp, ast.Call)):
+            return go(single[e.id], depth + 1)
+        if isinstance(e, ast.BoolOp):
+            return ast.BoolOp(op=e.op, values=[go(v, depth) for v in e.values])
+        if isinstance(e, ast.UnaryOp) and isinstance(e.op, ast.Not):
+            return ast.UnaryOp(op=e.op, operand=go(e.operand, depth))
+        return e
+    return go(test)
+
+
 def atoms(test):
     """The atomic tests of a condition (operands of and/or/not, recursively)."""
     if isinstance(test, ast.UnaryOp) and isinstance(test.op, ast.Not):
